@@ -34,7 +34,19 @@ pub struct PropDef {
     pub canaries: &'static [&'static str],
 }
 
+#[cfg(feature = "full")]
+pub mod c02;
 pub mod c04;
+#[cfg(feature = "full")]
+pub mod c09;
+#[cfg(feature = "full")]
+pub mod c11;
+#[cfg(feature = "full")]
+pub mod c12;
+#[cfg(feature = "full")]
+pub mod c14;
+#[cfg(feature = "full")]
+pub mod c15;
 
 pub fn all() -> Vec<PropDef> {
     let mut v = vec![c04::DEF];
@@ -47,5 +59,5 @@ pub fn all() -> Vec<PropDef> {
 
 #[cfg(feature = "full")]
 fn full() -> Vec<PropDef> {
-    vec![]
+    vec![c02::DEF, c09::DEF, c11::DEF, c12::DEF, c14::DEF, c15::DEF]
 }
